@@ -13,6 +13,7 @@ from vlib.runner import case_hash
 
 ID = "C09"
 LEVEL = "exploration"
+CASE_TIMEOUT = 30  # seconds per case; a timed-out case is counted as skipped (symbolic blow-up on long feedback runs), never as a verdict
 RULE = (
     "enumerated: all 2^w bit patterns of every shipped Qint/Qfixed/Qchar type (non-trivial = pattern not all-zero; "
     "distinct by (type, pattern)); generated: Hypothesis builds nested Tuple/Qlist/Qmatrix types (depth<=3, <=24 bits) "
